@@ -235,7 +235,7 @@ Proof.
       * cbn [In]. auto.
     + eapply SP_frame; [exact C|exact Hv|exact F|].
       intros k. destruct (opt_eqb (bm b' k) (bm b k)); [apply incl_refl|apply incl_tl, incl_refl].
-  - split; [exact A|]. split; [intros H; rewrite Ha in H; discriminate H|].
+  - unfold ScI. rewrite Ha. split; [exact A|]. split; [discriminate|].
     destruct (sc_pc sc) eqn:Hpc; try exact I; exfalso;
       (assert (Hf : false = true) by (apply A; discriminate)); discriminate Hf.
 Qed.
@@ -358,9 +358,10 @@ Proof.
       assert (Hne : sc_pc (scn s t) <> SIdle) by congruence.
       destruct (sc_facts s t HS Hne) as [S0 HP]. rewrite Hpc in HP. cbn [SP] in HP.
       destruct HP as [Hle HC].
-      destruct rest as [|sl rest]; intros H; injection H as <-; apply sinv_set_spc; auto; cbn [SP];
-        (split; [exact Hle|]); intros Hc; specialize (HC Hc); [exact HC|].
-      split; [reflexivity|]. apply Mid_next. exact HC.
+      destruct rest as [|sl rest]; intros H; injection H as <-.
+      * apply sinv_set_spc; auto. cbn [SP]. split; [exact Hle|exact HC].
+      * apply sinv_set_spc; auto. cbn [SP]. split; [exact Hle|]. intros Hc.
+        split; [reflexivity|]. apply Mid_next. exact (HC Hc).
     + (* SLv *)
       assert (Hne : sc_pc (scn s t) <> SIdle) by congruence.
       destruct (sc_facts s t HS Hne) as [S0 HP]. rewrite Hpc in HP. cbn [SP] in HP.
@@ -376,8 +377,9 @@ Proof.
       apply stable_false in St as [L Hi].
       destruct (N.eqb_spec (b_vins (base s)) v) as [E|E]; cbn [negb].
       * destruct (HC (conj E Hi)) as [Hw HM].
-        destruct (N.eqb_spec w 0) as [W|W]; intros H; injection H as <-; apply sinv_set_spc; auto;
-          cbn [SP]; [exact Hle|]. split; [exact Hle|]. intros _.
+        destruct (N.eqb_spec w 0) as [W|W]; intros H; injection H as <-;
+          (apply sinv_set_spc; [exact HS|exact Hne|]); cbn [SP]; [exact Hle|].
+        split; [exact Hle|]. intros _.
         destruct Hw as [Hw|Hw]; [contradiction|]. apply Mid_accept; assumption.
       * intros H; injection H as <-. apply SPerm_restart; assumption.
     + (* SFinal *)
